@@ -12,6 +12,7 @@ OPMOD = "netconf::message::rpc::operation"
 OP_TRAIT = OPMOD + "::Operation"
 
 EXPLANATION = (
+    "[Method] R2-R6 are decided by abstract interpretation: every public builder setter is run for every value of its capability-gated parameter with Requirements::check as the only undecided call; the setter must return Ok exactly on the paths where check(RFC 6241 reference requirement for that value, the server's capabilities) was true, and no other requirement may gate it; Operation::new, Url::try_new and Session::rpc likewise. Helper functions, constants and the check-to-Result idiom are free. "
     "C09/R1 (TABLE): for every impl of Operation the REQUIRED_CAPABILITIES const (read from its THIR) equals the RFC 6241 §8 "
     "reference keyed by the operation's NAME; an operation without a reference row is reported. C09/R2 (TABLE): the "
     "variant->Requirements tables of Datastore::try_as_source/target/lock_target, Filter::try_use, TestOption/ErrorOption::try_use, "
